@@ -424,8 +424,13 @@ class IncludedServiceDeclaration(Attribute):
 
     def __init__(self, service: Service) -> None:
         declaration_bytes = struct.pack(
-            '<HH2s', service.handle, service.end_group_handle, bytes(service.uuid)
+            '<HH', service.handle, service.end_group_handle
         )
+        # The service UUID is only present when it is a 16-bit Bluetooth UUID
+        # (see Vol 3, Part G - 3.2 INCLUDE DEFINITION)
+        uuid_bytes = service.uuid.to_pdu_bytes()
+        if len(uuid_bytes) == 2:
+            declaration_bytes += uuid_bytes
         super().__init__(
             GATT_INCLUDE_ATTRIBUTE_TYPE, Attribute.READABLE, declaration_bytes
         )
